@@ -48,6 +48,7 @@ type ChainOpts struct {
 	ChainID     uint64
 	Strategy    []*repo.Strategy
 	Quiet       bool
+	ProofType   string // "serial" (default here) or "parallel" (repo.DefaultConfig's value)
 }
 
 // Chain is a running single-node stack without ordering and networking.
@@ -128,6 +129,9 @@ func NewChain(o ChainOpts) (*Chain, error) {
 	cfg.Ledger.Type = "simple"
 	cfg.Executor.Type = "serial"
 	cfg.Executor.ProofType = "serial"
+	if o.ProofType != "" {
+		cfg.Executor.ProofType = o.ProofType
+	}
 	cfg.Executor.EnableAudit = o.EnableAudit
 	cfg.Genesis.ChainID = o.ChainID
 	cfg.Genesis.Balance = o.Balance
